@@ -1256,6 +1256,23 @@ func (s *BgpServer) handleRouteRefresh(peer *peer, e *fsmMsg) {
 	}
 	rfList := []bgp.Family{rf}
 	s.getBestFromLocalCallback(peer, rfList, true, true, func(paths []*table.Path, filtered []*table.Path) {
+		// like a soft reset out: what was advertised and is filtered by the
+		// current export policy must be withdrawn, the peer re-learns its
+		// whole Adj-RIB-In from this answer
+		withdrawals := make([]*table.Path, 0, len(filtered))
+		for _, path := range filtered {
+			if path == nil || path.IsEOR() {
+				continue
+			}
+			if !peer.IsFamilyEnabled(path.GetFamily()) {
+				continue
+			}
+			if !peer.hasPathAlreadyBeenSent(path) {
+				continue
+			}
+			withdrawals = append(withdrawals, path.Clone(true))
+		}
+		paths = append(withdrawals, paths...)
 		if len(paths) > 0 {
 			peer.updateRoutes(paths...)
 			sendfsmOutgoingMsg(peer, paths)
